@@ -550,6 +550,67 @@ def dilating_case(tid, n, perm, who, hold_version=True):
     return run, bool(drained), drained, ok
 
 
+def burst_case(tid, mode, n, how):
+    """The peer's frames reach A several at a time (one read of the socket carries them all: no reactor turn in between):
+    how = "first": pake, version and n messages in one burst on the first connection; "replay": A had everything, loses its
+    connection, and the server replays the whole mailbox in one burst; "pairs": two frames per read.  The order of A's events
+    (code, key, verifier, versions, messages in order) is what it is frame by frame."""
+    run = RealRun(tid, "burst-family", modes={"A": mode, "B": "delegated" if mode != "delegated" else "deferred"})
+    w = run.world
+    run.apply({"a": "ConnOpen", "c": "B"})
+    run.apply({"a": "AppSetCode", "c": "B", "code": "4-alpha-beta"})
+    for i in range(n):
+        run.apply({"a": "AppSend", "c": "B", "data": ("m:B:%d" % i).encode().hex()})
+    run.drain()
+    if any(a["a"] == "ConnOpen" and a["c"] == "A" for a in w.enabled(faults=False)):
+        run.apply({"a": "ConnOpen", "c": "A"})
+    run.apply({"a": "AppSetCode", "c": "A", "code": "4-alpha-beta"})
+    bside = w.clients["B"].side
+
+    def others_first():
+        """everything except B's message frames towards A"""
+        for _ in range(400):
+            moved = False
+            for a in w.enabled(faults=False):
+                if a["a"] == "Deliver":
+                    conn = w.conn(a["k"])
+                    fr = conn.s2c[0]
+                    if conn.client.name == "A" and fr["type"] == "message" and fr["side"] == bside:
+                        free = [i for i, f in enumerate(conn.s2c) if not (f["type"] == "message" and f["side"] == bside)]
+                        if free:
+                            run.apply({"a": "MoveS2C", "k": conn.id, "i": free[0], "to": 0})
+                            run.apply(a)
+                            moved = True
+                            break
+                        continue
+                if a["a"] in ("Serve", "Deliver", "CloseDone"):
+                    run.apply(a)
+                    moved = True
+                    break
+            if not moved:
+                return
+
+    def burst(size):
+        conns = [c for c in w.conns if c.client.name == "A" and c.state == "open" and not c.closing]
+        while conns and conns[-1].s2c:
+            run.apply({"a": "DeliverBurst", "k": conns[-1].id, "n": size})
+            others_first()
+    others_first()
+    if how == "replay":
+        run.drain()
+        conn = [c for c in w.conns if c.client.name == "A" and c.state == "open"][-1]
+        run.apply({"a": "Drop", "k": conn.id})
+        for _ in range(6):
+            acts = [a for a in w.enabled(faults=False) if a["a"] in ("Retry", "ConnOpen") and a.get("c") == "A"]
+            if not acts:
+                break
+            run.apply(acts[0])
+        others_first()
+    burst(2 if how == "pairs" else 99)
+    drained = run.drain()
+    return run, bool(drained), drained
+
+
 def input_callback_case(tid, mode, words_when, peer_first):
     """Interactive code entry by an application that uses the helper from inside its when_wordlist_is_available() callback
     (completions the moment the word list is there), in both API flavours; the words are chosen before or after the claim is
@@ -1088,7 +1149,7 @@ def world_to_spec(run, a):
     """world action -> lastAct pattern of the spec ('*' = not compared); None = no spec step."""
     w = run.world
     t = a["a"]
-    if t in ("Retry", "AppGet", "AppGetBurst", "AppDerive"):
+    if t in ("Retry", "AppGet", "AppGetBurst", "AppDerive", "DeliverBurst", "MoveS2C", "DupS2C"):
         return None
 
     def cname(k):
@@ -1802,6 +1863,21 @@ def run_pipeline(prop, tier, v, quick):
                         runs[tid] = run_
                         records.append(run_.finish(drained, goal=False))
             cov["c08_unread_at_close_cases"] = n
+        if prop in ("C18", "C03", "C14"):
+            n = 0
+            for mode in ("delegated", "deferred"):
+                for how in ("first", "replay", "pairs"):
+                    for n_ in (0, 2):
+                        tid += 1
+                        n += 1
+                        try:
+                            run_, goal, drained = burst_case(tid, mode, n_, how)
+                        except Exception as e:
+                            cov.setdefault("family_errors", []).append("burst %s %s: %r" % (mode, how, e))
+                            continue
+                        runs[tid] = run_
+                        records.append(run_.finish(drained, goal=goal))
+            cov["burst_cases"] = n
         if prop in ("C14", "C19"):
             n = 0
             for mode in ("deferred", "delegated"):
